@@ -416,33 +416,87 @@ func runSched(t *rapid.T) {
 	// ---- concurrent phase: on a COLD twin of the shared object — the keyset re-read from its serialized form and
 	// primitives nobody has used yet — so that lazily initialised state is first touched under the schedule, not
 	// warmed up by the sequential oracle
-	cold, err := coldTwin(sh, monitored)
-	if err != nil {
-		t.Fatalf("harness: cannot build the cold twin of %s: %v", sh.entry.Name, err)
-	}
-	got := make([][]result, nTasks)
-	fns := make([]func(), nTasks)
-	for i := range tasks {
-		i := i
-		g.SetOffset(i, 0)
-		got[i] = make([]result, 0, len(tasks[i]))
-		fns[i] = func() {
-			for _, o := range tasks[i] {
-				out, err := o.run(cold)
-				got[i] = append(got[i], result{out, err != nil})
+	concurrentOnce := func() (*simsched.Sched, [][]result, [][]simmon.Event, int) {
+		cold, err := coldTwin(sh, monitored)
+		if err != nil {
+			t.Fatalf("harness: cannot build the cold twin of %s: %v", sh.entry.Name, err)
+		}
+		got := make([][]result, nTasks)
+		fns := make([]func(), nTasks)
+		for i := range tasks {
+			i := i
+			g.SetOffset(i, 0)
+			got[i] = make([]result, 0, len(tasks[i]))
+			fns[i] = func() {
+				for _, o := range tasks[i] {
+					out, err := o.run(cold)
+					got[i] = append(got[i], result{out, err != nil})
+				}
 			}
 		}
+		s := simsched.New(plan)
+		mon.Reset()
+		mon.SetLaneFunc(s.Current)
+		g.SetLaneFunc(s.Current)
+		s.OnPass = onPass
+		before := raceErrors()
+		s.Run(fns)
+		races := raceErrors() - before
+		lane = 14
+		g.SetLaneFunc(func() int { return lane })
+		ev := make([][]simmon.Event, nTasks)
+		for i := range ev {
+			ev[i] = append([]simmon.Event{}, mon.Events[i]...)
+		}
+		return s, got, ev, races
 	}
-	s := simsched.New(plan)
-	mon.Reset()
-	mon.SetLaneFunc(s.Current)
-	g.SetLaneFunc(s.Current)
-	s.OnPass = onPass
-	racesBefore := raceErrors()
-	s.Run(fns)
-	racesAfter := raceErrors()
-	lane = 14
-	g.SetLaneFunc(func() int { return lane })
+	// judge compares one concurrent execution with the sequential oracle; "" = agrees
+	judge := func(s *simsched.Sched, got [][]result, ev [][]simmon.Event) (string, string) {
+		kt := sh.class + "/" + sh.entry.KeyType
+		if len(s.Panics) > 0 {
+			return "C18/panic:" + kt, fmt.Sprintf("a task panicked under the schedule (not when run alone): %v", s.Panics[0])
+		}
+		for i := range tasks {
+			for j, o := range tasks[i] {
+				if j >= len(got[i]) {
+					return "C18/task-incomplete", fmt.Sprintf("task %d stopped after %d of %d operations", i, len(got[i]), len(tasks[i]))
+				}
+				e, c := expected[i][j], got[i][j]
+				if e.err != c.err {
+					return "C18/result-differs:" + kt + ":" + opClass(o.name), fmt.Sprintf("task %d op %s: error=%v when run alone, error=%v under the schedule", i, o.name, e.err, c.err)
+				}
+				if o.check != nil {
+					if !c.err {
+						if err := o.check(sh, c.out); err != nil {
+							return "C18/result-invalid:" + kt + ":" + opClass(o.name), fmt.Sprintf("task %d op %s: concurrent result is not accepted by the recipient: %v", i, o.name, err)
+						}
+					}
+					continue
+				}
+				if !bytes.Equal(e.out, c.out) {
+					return "C18/result-differs:" + kt + ":" + opClass(o.name), fmt.Sprintf("task %d op %s: result under the schedule differs from the result when run alone (%s vs %s)", i, o.name, core.Hex(c.out, 24), core.Hex(e.out, 24))
+				}
+			}
+		}
+		for i := range tasks {
+			if !sh.semantic && fmt.Sprint(ev[i]) != fmt.Sprint(expectedEvents[i]) {
+				return "C18/monitoring-differs:" + kt, fmt.Sprintf("task %d logged %v under the schedule but %v when run alone", i, ev[i], expectedEvents[i])
+			}
+		}
+		return "", ""
+	}
+	skipIfAborted := func(s *simsched.Sched) {
+		if s.Aborted {
+			// The scheduler had to let the tasks run freely (a task blocked in a real synchronisation primitive while
+			// holding the baton, or the machine starved the process for half a minute). Task identity — hence RNG lanes
+			// and per-task monitoring — is meaningless for such a run, so it is counted and judged by nothing.
+			core.CountGlobal("free-run-fallback")
+			t.Skip("free-run fallback")
+		}
+	}
+
+	s, got, events, races := concurrentOnce()
+	racesBefore, racesAfter := 0, races
 
 	// ---- oracles
 	inside := 0
@@ -461,20 +515,10 @@ func runSched(t *rapid.T) {
 	if inside > 0 {
 		r.Fault("preemption-inside-tink-call")
 	}
-	if s.Aborted {
-		// The scheduler had to let the tasks run freely (a task blocked in a real synchronisation primitive while
-		// holding the baton, or the machine starved the process for half a minute). Task identity — hence RNG lanes
-		// and per-task monitoring — is meaningless for such a run, so it is counted and judged by nothing.
-		core.CountGlobal("free-run-fallback")
-		t.Skip("free-run fallback")
-	}
+	skipIfAborted(s)
 	r.Count("yields", int64(s.Yields))
 	for i := 0; i+1 < len(s.Trace); i++ {
 		r.SetAdd("site-pairs", fmt.Sprintf("%d>%d", s.Trace[i].Site, s.Trace[i+1].Site))
-	}
-	if len(s.Panics) > 0 {
-		r.Violation("C18/panic:"+sh.class+"/"+sh.entry.KeyType, fmt.Sprintf("a task panicked under the schedule (not when run alone): %v", s.Panics[0]))
-		return
 	}
 	if arenaDirtyAt >= 0 || sumArena() != arenaSum {
 		arena = nil // rebuilt by the next run
@@ -483,39 +527,27 @@ func runSched(t *rapid.T) {
 	}
 	for i := range tasks {
 		for j, o := range tasks[i] {
-			if j >= len(got[i]) {
-				r.Violation("C18/task-incomplete", fmt.Sprintf("task %d stopped after %d of %d operations", i, len(got[i]), len(tasks[i])))
-				return
-			}
-			e, c := expected[i][j], got[i][j]
-			if o.check == nil {
-				r.Obs(fmt.Sprintf("t%d.%s", i, o.name), c.out)
-			}
-			if e.err != c.err {
-				r.Violation("C18/result-differs:"+sh.class+"/"+sh.entry.KeyType+":"+opClass(o.name), fmt.Sprintf("task %d op %s: error=%v when run alone, error=%v under the schedule", i, o.name, e.err, c.err))
-				return
-			}
-			if o.check != nil {
-				if !c.err {
-					if err := o.check(sh, c.out); err != nil {
-						r.Violation("C18/result-invalid:"+sh.class+"/"+sh.entry.KeyType+":"+opClass(o.name), fmt.Sprintf("task %d op %s: concurrent result is not accepted by the recipient: %v", i, o.name, err))
-						return
-					}
-				}
-				continue
-			}
-			if !bytes.Equal(e.out, c.out) {
-				r.Violation("C18/result-differs:"+sh.class+"/"+sh.entry.KeyType+":"+opClass(o.name), fmt.Sprintf("task %d op %s: result under the schedule differs from the result when run alone (%s vs %s)", i, o.name, core.Hex(c.out, 24), core.Hex(e.out, 24)))
-				return
+			if j < len(got[i]) && o.check == nil {
+				r.Obs(fmt.Sprintf("t%d.%s", i, o.name), got[i][j].out)
 			}
 		}
 	}
-	for i := range tasks {
-		if !sh.semantic && fmt.Sprint(mon.Events[i]) != fmt.Sprint(expectedEvents[i]) {
-			r.Violation("C18/monitoring-differs:"+sh.class+"/"+sh.entry.KeyType, fmt.Sprintf("task %d logged %v under the schedule but %v when run alone", i, mon.Events[i], expectedEvents[i]))
+	if key, detail := judge(s, got, events); key != "" {
+		// The simulator decides the schedule, so a genuine schedule-dependent failure repeats exactly when the same
+		// plan runs again on a fresh cold twin. A mismatch that does not repeat comes from outside the simulation
+		// (one such event was seen in ~10^6 runs, on a machine five times oversubscribed); it is counted, never reported.
+		s2, got2, events2, _ := concurrentOnce()
+		skipIfAborted(s2)
+		if key2, _ := judge(s2, got2, events2); key2 == key {
+			r.Violation(key, detail)
 			return
 		}
-		if monitored && len(mon.Events[i]) > 0 {
+		core.CountGlobal("unreproducible-mismatch")
+		r.Logf("mismatch %s did not repeat under the same plan: %s", key, detail)
+		t.Skip("mismatch did not repeat under the same schedule")
+	}
+	for i := range tasks {
+		if monitored && len(events[i]) > 0 {
 			r.Probe("monitoring-events-compared")
 		}
 	}
